@@ -319,9 +319,159 @@ def ghostUpdate (st : DState) (pre : DState) (fields : List String) (impl : Opti
     | none => st
   | _ => st
 
+/-- endpoints of the token service that the pause must stop (C20) -/
+def pausable : List String :=
+  ["execute", "interchainTransfer", "callContractWithInterchainToken", "registerCanonicalInterchainToken",
+   "registerCustomToken", "deployInterchainToken", "deployRemoteInterchainToken",
+   "deployRemoteInterchainTokenWithMinter", "deployRemoteCanonicalInterchainToken", "linkToken"]
+
+def outboundFuncs : List String := ["interchainTransfer", "callContractWithInterchainToken"]
+
+/-- which operations each ITS property observes -/
+def itsObserves (prop func : String) : Bool :=
+  match prop with
+  | "C04" => func == "execute"
+  | "C05" => outboundFuncs.contains func
+  | "C08" => func == "execute"
+  | "C13" => func == "execute" || outboundFuncs.contains func || func == "linkToken" ||
+             func == "setTrustedAddress" || func == "removeTrustedAddress"
+  | "C14" => ["registerCanonicalInterchainToken", "registerCustomToken", "deployInterchainToken", "execute",
+              "linkToken"].contains func
+  | "C17" => ["registerTokenMetadata", "deployRemoteInterchainToken", "deployRemoteInterchainTokenWithMinter",
+              "deployRemoteCanonicalInterchainToken"].contains func
+  | "C18" => func == "deployInterchainToken" || func == "execute"
+  | "C19" => ["approveDeployRemoteInterchainToken", "revokeDeployRemoteInterchainToken",
+              "deployRemoteInterchainTokenWithMinter", "deployRemoteInterchainToken"].contains func
+  | "C20" => true
+  | _ => false
+
+def itsObservesQuery (prop func : String) : Bool :=
+  match prop with
+  | "C04" => func == "isMessageExecuted"
+  | "C08" => func == "isMessageExecuted" || func == "transferWithDataLock"
+  | "C13" => func == "trustedAddress"
+  | "C14" => ["canonicalInterchainTokenId", "linkedTokenId", "interchainTokenId", "invalidTokenManagerAddress",
+              "deployedTokenManager", "registeredTokenIdentifier", "chainNameHash"].contains func
+  | "C18" => func == "isMessageExecuted" || func == "invalidTokenManagerAddress"
+  | "C20" => func == "isPaused" || func == "trustedAddress" || func == "flowLimit"
+  | _ => false
+
+/-- C04, C05, C08, C13, C14, C17, C18, C19, C20: the token service -/
+def judgeIts (prop : String) (st : DState) (fields : List String) (impl : Option Outcome)
+    (model : Outcome) : String :=
+  let w := st.world
+  let its := w.its
+  let modelOk := match model with | .ok _ _ _ => true | _ => false
+  let same := match impl, model with
+    | some (.ok r e p), .ok r' e' p' => r == r' && e == e' && p == p'
+    | some (.okNat n), .okNat m => n == m
+    | some .fail, .fail => true
+    | some .nopending, .nopending => true
+    | some .okPlain, .okPlain => true
+    | _, _ => false
+  match fields with
+  | ["tx", src, dst, func, _egld, _esdt, args] =>
+    match ofHex src, ofHex dst, parseArgs args with
+    | some src, some dst, some args =>
+      if w.kind dst != some .its then "ok" else
+      if !itsObserves prop func then "ok" else
+      -- C20: nothing pausable may go through while paused
+      if prop == "C20" && its.paused && pausable.contains func && implOk impl then
+        s!"VIOLATION:{func}-succeeded-while-paused"
+      else if prop == "C20" && implOk impl && !modelOk then
+        (if func == "pause" || func == "unpause" || func == "setTrustedAddress" || func == "removeTrustedAddress"
+         then "VIOLATION:owner-only-operation-accepted-from-other-caller"
+         else if func == "setFlowLimits" then "VIOLATION:flow-limit-set-without-operator-role"
+         else "ok")
+      else if prop == "C13" && implOk impl then
+        (if func == "execute" then
+          match args with
+          | [chain, _, srcAddr, payload] =>
+            if !Its.isTrustedAddress its chain srcAddr || (Its.getExecuteParams its chain payload).isNone then
+              "VIOLATION:inbound-message-processed-off-trusted-route" else "ok"
+          | _ => "ok"
+         else if func == "setTrustedAddress" || func == "removeTrustedAddress" then
+          (if src != w.owner dst then "VIOLATION:trusted-table-changed-by-non-owner" else "ok")
+         else
+          -- outbound: the gateway event must go to the route the table prescribes
+          let destChain := args.getD 1 []
+          let calls := (implEvents impl).filter (·.name == "contract_call_event")
+          match Its.getCallParams its destChain [] with
+          | none => "VIOLATION:outbound-message-sent-without-trusted-route"
+          | some (c, a, _) =>
+            if calls.all (fun e => e.topics.getD 1 [] == c && e.topics.getD 2 [] == a) && calls.length == 1 then "ok"
+            else "VIOLATION:outbound-message-not-sent-to-trusted-peer")
+      else if implOk impl && !modelOk then
+        match prop with
+        | "C04" => "VIOLATION:inbound-execute-accepted-outside-approved-trusted-once-rules"
+        | "C05" => "VIOLATION:outbound-transfer-accepted-outside-rules"
+        | "C08" => "VIOLATION:transfer-with-data-started-outside-rules"
+        | "C14" => "VIOLATION:registration-accepted-for-bound-or-foreign-token-id"
+        | "C17" => "VIOLATION:gas-carrying-operation-accepted-outside-rules"
+        | "C18" => "VIOLATION:deployment-step-accepted-outside-rules"
+        | "C19" => "VIOLATION:remote-deploy-with-minter-accepted-without-exact-approval"
+        | _ => "ok"
+      else if implOk impl && modelOk && !same then
+        match prop with
+        | "C04" => "VIOLATION:inbound-release-effects-differ"
+        | "C05" => "VIOLATION:outbound-message-or-gas-event-not-faithful"
+        | "C08" => "VIOLATION:transfer-with-data-dispatch-differs"
+        | "C14" => "VIOLATION:token-id-or-manager-binding-differs"
+        | "C17" => "VIOLATION:gas-forwarding-differs"
+        | "C18" => "VIOLATION:deployment-step-effects-differ"
+        | "C19" => "VIOLATION:remote-deploy-payload-differs"
+        | _ => "ok"
+      else "ok"
+    | _, _, _ => "ok"
+  | ["query", dst, func, _args] =>
+    match ofHex dst with
+    | some _ =>
+      if !itsObservesQuery prop func || same then "ok" else
+      s!"VIOLATION:{prop}-view-{func}-differs-from-rules"
+    | none => "ok"
+  | ["bal", _a, _tok] =>
+    if ["C04", "C05", "C08", "C17", "C18"].contains prop && !same then
+      s!"VIOLATION:{prop}-balances-not-conserved" else "ok"
+  | ["cb", id] =>
+    match id.toNat? with
+    | some id =>
+      match World.findPending w.pending id with
+      | some p =>
+        match p.kind, p.result with
+        | .itsExecute _ _ _ _ _ _ _ amount, some (okFlag, _) =>
+          if prop != "C08" then "ok" else
+          if !implOk impl then
+            (if !modelOk && !okFlag && amount > 0 then
+               "VIOLATION:tokens-left-in-service-take-back-rejected-in-failure-callback"
+             else "VIOLATION:transfer-with-data-callback-failed")
+          else if !same then "VIOLATION:transfer-with-data-callback-effects-differ" else "ok"
+        | .itsMetadata _ _ gas _, some _ =>
+          if prop != "C17" then "ok" else
+          if !implOk impl && gas > 0 then
+            (if !modelOk then "VIOLATION:gas-value-stranded-metadata-callback-failed"
+             else "VIOLATION:gas-value-stranded-callback-failed-unexpectedly")
+          else if implOk impl && !same then "VIOLATION:gas-callback-effects-differ" else "ok"
+        | .itsDeployRemote _ _ _ _ _ gas _, some _ =>
+          if prop != "C17" then "ok" else
+          if !implOk impl && gas > 0 then
+            (if !modelOk then "VIOLATION:gas-value-stranded-remote-deploy-callback-failed"
+             else "VIOLATION:gas-value-stranded-callback-failed-unexpectedly")
+          else if implOk impl && !same then "VIOLATION:gas-callback-effects-differ" else "ok"
+        | .tmIssue tm, some (okFlag, _) =>
+          if prop != "C18" then "ok" else
+          if implOk impl && okFlag && !(w.tms tm).tokenIdentifier.isEmpty &&
+              (implEvents impl).any (·.name == "interchain_token_deployed_event") then
+            "VIOLATION:recorded-token-replaced-by-second-issuance"
+          else if implOk impl && !same then "VIOLATION:issuance-callback-effects-differ" else "ok"
+        | _, _ => "ok"
+      | none => "ok"
+    | none => "ok"
+  | _ => "ok"
+
 def judge (prop : String) (st : DState) (fields : List String) (impl : Option Outcome)
     (model : Outcome) (implMsg : String) : String :=
   match prop with
+  | "C04" | "C05" | "C08" | "C13" | "C14" | "C17" | "C18" | "C19" | "C20" => judgeIts prop st fields impl model
   | "C11" | "C12" | "C16" => judgeGov prop st fields impl model
   | "C09" | "C10" => judgeTm prop st fields impl model implMsg
   | "C15" => judgeGas st fields impl
